@@ -21,6 +21,7 @@ func init() {
 		Rule:    "scenario = seeded (forest<=5 entities/3 tiers, pre-state, trigger, flags); inside a scenario every WriteFile of the faulted run x {W1 error, W2 error-after-truncate, W3 short write, W4 death before, W5 death after truncate, W6 torn at every PEM block boundary + line boundaries + seeded interior offsets, W6z torn+zero-fill, W7 death after write}; distinct = (op-kind sequence, per-run outcome and fault kinds, final per-entity artifact state); non-trivial = a run planned work or a fault fired",
 		Oracle:  func() Oracle { return &c15Oracle{} },
 		Explore: exploreC15,
+		LaneP:   laneP_C15,
 	})
 }
 
@@ -216,8 +217,64 @@ func faultedOpIndex(p *Plan, tag string) int {
 	return -1
 }
 
+// genC15DirScenario: a write error that can be set up beforehand, so that the real binary meets it
+// too: the artifact path of one entity is a directory.
+func genC15DirScenario(r *Rng) *Plan {
+	p := &Plan{Prop: "C15", Seed: r.U64(), Meta: map[string]string{"arm": "artifact-path-is-directory"}}
+	worldParams(r, p)
+	p.TZ = "UTC"
+	f := genForest(r, ForestOpts{MaxEnts: 4, MaxDepth: 3, Mix: KeyMix{Omit: 1}, MaxExts: 1, Dirs: r.Bool(), Validity: valRelative})
+	for _, e := range f.Ents {
+		p.Add(Op{K: "put-ent", Spec: e})
+	}
+	victim := Pick(r, f.Ents)
+	p.Add(Op{K: "mkdir", Path: victim.PemPath(), Label: "artifact-path-is-directory"})
+	p.Add(Op{K: "run", Flags: DefaultFlags, Tags: []string{"write-must-fail"}})
+	return p
+}
+
+func laneP_C15(t *testing.T, plan *Plan, w *World, sink *Sink) {
+	if gopkiBin() == "" || plan.Meta["arm"] != "artifact-path-is-directory" || w == nil {
+		return
+	}
+	rr := runOf(w, "write-must-fail")
+	if rr == nil {
+		return
+	}
+	dir, err := scratchDir()
+	if err != nil {
+		sink.res.Harness = append(sink.res.Harness, err.Error())
+		return
+	}
+	defer removeAll(dir)
+	if err := materialize(dir, rr.Before, w.FS.dirs); err != nil {
+		sink.res.Harness = append(sink.res.Harness, "lane P materialize: "+err.Error())
+		return
+	}
+	yes := "y\n"
+	res, err := runBinary(dir, flagArgs(rr.Op.Flags), &yes, "UTC")
+	if err != nil {
+		sink.res.Harness = append(sink.res.Harness, "lane P run: "+err.Error())
+		return
+	}
+	sink.Cell("lane:P")
+	if res.Exit == 0 {
+		sink.LaneViolation(plan, "laneP:write-error-exit-0", "an artifact path is a directory, so its write fails, but the binary exited 0: "+res.Stdout)
+	}
+}
+
 func exploreC15(t *testing.T, seed uint64, idx int, tier string, sink *Sink) {
 	r := NewRng(Mix(seed, uint64(idx)))
+	if idx%8 == 7 {
+		pl := genC15DirScenario(r)
+		w := Exec(t, pl, &c15Oracle{})
+		sink.Cell("arm:artifact-path-is-directory")
+		sink.Report(w)
+		if len(w.Viol) == 0 && w.Harness == "" {
+			laneP_C15(t, pl, w, sink)
+		}
+		return
+	}
 	base := genC15Scenario(r, tier)
 	dry := Exec(t, base.Clone(), &c15Oracle{})
 	sink.Report(dry)
@@ -295,6 +352,11 @@ func (o *c15Oracle) AfterRun(w *World, op *Op, res *RunResult) {
 		return
 	}
 	switch {
+	case op.HasTag("write-must-fail"):
+		w.Hit("write-error-injected")
+		if !res.Failed {
+			w.Fail("write-error-reported-as-success:EISDIR", "an artifact path is a directory; the run must fail but reported success (planned %v)", res.PlannedAliases())
+		}
 	case op.HasTag("setup"):
 		if !res.OK() {
 			w.Harness = fmt.Sprintf("setup run failed on a generated world: stage=%s err=%s", res.Stage, res.Err)
